@@ -461,6 +461,11 @@ class NumpyCodegenMapper(CachedMapper[str, Never, []]):
                     stop = (None
                             if are_shape_components_equal(dim, idx.stop)
                             else idx.stop)
+                elif are_shape_components_equal(-1, idx.start):
+                    # a negative-step slice normalized to start "before the
+                    # first element" is empty; -1 must not be emitted, as
+                    # Python would read it as the last element
+                    start, stop = 0, 0
                 else:
                     start = (None
                              if are_shape_components_equal(dim-1, idx.start)
